@@ -38,7 +38,7 @@ SHARD_TIMEOUT = {"quick": 900, "thorough": 3000}
 
 def plan(tier, seed):
     n = 16 if tier == "quick" else 32
-    return [{"name": f"gc{j}", "j": j, "seed": seed, "sims": 10 if tier == "quick" else 60, "steps": 40 if tier == "quick" else 120} for j in range(n)]
+    return [{"name": f"gc{j}", "j": j, "seed": seed, "sims": 30 if tier == "quick" else 80, "steps": 40 if tier == "quick" else 120} for j in range(n)]
 
 
 def classify_exception(ex) -> str:
